@@ -58,18 +58,27 @@ Hypothesis unforgeable : forall pk h r i s, honest pk -> vf pk h r i s = true ->
 Hypothesis one_vote_per_kind : forall pk k h h' r i,
   honest pk -> k <> next_index -> emits pk k h r i -> emits pk k h' r i -> h = h'.
 
-(* the listed findings, as a predicate on an accepted evidence *)
-Definition finding_class (ev : evidence) (pk : N) : Prop :=
+(* the listed findings, as predicates on an accepted evidence *)
+(* (b) two different hashes the validator really signed as votes of different
+   kinds, or as its two next-index votes - OPEN: the signed payload has no kind *)
+Definition cross_kind_class (ev : evidence) (pk : N) : Prop :=
   match ev with
   | EvDS r ri _ _ signs =>
-    (* one signed hash listed several times *)
-    (fx_distinct fx = false /\ two_hashes signs = false)
-    (* votes of different kinds, or the two next-index votes *)
-    \/ exists k1 k2 h1 h2 s1 s2,
-         In (h1, s1) signs /\ In (h2, s2) signs /\ h1 <> h2 /\
-         emits pk k1 h1 r ri /\ emits pk k2 h2 r ri /\ (k1 <> k2 \/ k1 = next_index)
+    exists k1 k2 h1 h2 s1 s2,
+      In (h1, s1) signs /\ In (h2, s2) signs /\ h1 <> h2 /\
+      emits pk k1 h1 r ri /\ emits pk k2 h2 r ri /\ (k1 <> k2 \/ k1 = next_index)
   | _ => False
   end.
+
+(* (a) one signed hash listed several times - possible only without the repair *)
+Definition duplicate_class (ev : evidence) : Prop :=
+  match ev with
+  | EvDS _ _ _ _ signs => fx_distinct fx = false /\ two_hashes signs = false
+  | _ => False
+  end.
+
+Definition finding_class (ev : evidence) (pk : N) : Prop :=
+  duplicate_class ev \/ cross_kind_class ev pk.
 
 Lemma justified_honest_is_finding cfg ch parent ev a :
   justifies fx vf cfg ch parent ev a ->
@@ -82,6 +91,7 @@ Proof.
   assert (Hreg : registered ch a pk).
   { exists vs, signer. repeat split; auto; [eapply lookback_set_In; eassumption|eapply nthN_In; eassumption]. }
   exists pk. split; [assumption|].
+  unfold finding_class, duplicate_class, cross_kind_class.
   destruct (two_hashes signs) eqn:Et.
   - right. apply two_hashes_inv in Et as (h1 & s1 & h2 & s2 & I1 & I2 & Hne).
     rewrite forallb_forall in Hall.
@@ -106,6 +116,20 @@ Proof.
   destruct (processed_justified _ _ _ _ _ _ _ _ _ _ H Hin) as (ev & Hev & Hj); [simpl; tauto|].
   destruct (justified_honest_is_finding _ _ _ _ _ Hj Hh) as (pk & Hreg & Hf).
   exists ev, pk. auto.
+Qed.
+
+(* with the repair (the tree as it is) only class (b) remains *)
+Theorem honest_safe_outside_repaired cfg ch parent hnum evs st res' a :
+  fx_distinct fx = true ->
+  process_evidences fx vf cfg ch parent hnum evs st = Some res' ->
+  (forall pk, registered ch a pk -> honest pk) ->
+  In a (r_processed res') ->
+  exists ev pk, In ev evs /\ registered ch a pk /\ cross_kind_class ev pk.
+Proof.
+  intros Hfx H Hh Hin.
+  destruct (honest_safe_outside _ _ _ _ _ _ _ _ H Hh Hin) as (ev & pk & H1 & H2 & [Hd|Hc]).
+  - exfalso. destruct ev; simpl in Hd; try tauto. destruct Hd as [Hd _]. congruence.
+  - exists ev, pk. auto.
 Qed.
 
 (* the same, read on the ledger: a changed record implies a finding-class evidence *)
@@ -259,21 +283,30 @@ Proof.
     + destruct (Hpos H) as (_ & -> & _). apply in_or_app. right. left. reflexivity.
 Qed.
 
+End Equivocation.
+
+Section BuilderValidator.
+Variable fx : fixes.
+Variable vf : vfun.
+Variable cfg : config.
+Variable ch : chain.
+Variable hnum : N.
+
 (* ---- builder and validator -------------------------------------------------------------------- *)
 Theorem builder_validator_agree pool st res pend sd :
-  slashing fx vf cfg ch parent hnum pool st = Some (res, pend, sd) ->
+  slashing fx vf cfg ch hnum pool st = Some (res, pend, sd) ->
   (fx_zero fx = true \/ length (r_processed res) = length (r_affected res)) ->
   exists res2,
-    replay_slashing fx vf cfg ch parent hnum sd st = Some (res2, false) /\
+    replay_slashing fx vf cfg ch hnum sd st = Some (res2, false) /\
     r_state res2 = r_state res /\ r_logs res2 = r_logs res /\
     r_affected res2 = r_affected res /\ r_confirmed res2 = r_confirmed res.
 Proof.
   unfold slashing. destruct pool as [|e pool].
   { intros H _. injection H as <- _ <-. exists (empty_result st). simpl. auto. }
-  destruct (process_evidences fx vf cfg ch parent hnum (e :: pool) st) as [rb|] eqn:Hp; [|discriminate].
+  destruct (process_evidences fx vf cfg ch (parent_of hnum) hnum (e :: pool) st) as [rb|] eqn:Hp; [|discriminate].
   intros H Hout. injection H as <- _ <-.
   unfold process_evidences in Hp.
-  destruct (replay_reproduces fx vf cfg ch parent hnum _ _ _ (empty_result st) Hp eq_refl) as (newc & rv' & E1 & E2 & E3).
+  destruct (replay_reproduces fx vf cfg ch (parent_of hnum) hnum _ _ _ (empty_result st) Hp eq_refl) as (newc & rv' & E1 & E2 & E3).
   { destruct Hout as [Hz|Hl]; [left; assumption|right]. unfold gap. simpl. lia. }
   simpl in E1. unfold core in E3. injection E3 as Ec Ea El Epr Es.
   rewrite E1. destruct newc as [|c cs].
@@ -281,7 +314,28 @@ Proof.
   - exists rv'. unfold replay_slashing, process_evidences. rewrite E2. rewrite <- E1. auto.
 Qed.
 
-End Equivocation.
+
+(* with the zero-penalty repair (the tree as it is) the agreement is unconditional *)
+Theorem builder_validator_agree_repaired pool st res pend sd :
+  fx_zero fx = true ->
+  slashing fx vf cfg ch hnum pool st = Some (res, pend, sd) ->
+  exists res2,
+    replay_slashing fx vf cfg ch hnum sd st = Some (res2, false) /\
+    r_state res2 = r_state res /\ r_logs res2 = r_logs res /\
+    r_affected res2 = r_affected res /\ r_confirmed res2 = r_confirmed res.
+Proof. intros Hz H. eapply builder_validator_agree; eauto. Qed.
+
+(* with the two-hashes repair an evidence that names a single hash is inert,
+   whatever else it contains and wherever it is placed *)
+Theorem single_hash_evidence_inert parent r ri idx vt signs res :
+  fx_distinct fx = true -> two_hashes signs = false ->
+  process_ds fx vf cfg ch parent hnum (EvDS r ri idx vt signs) res = Some res.
+Proof.
+  intros Hfx Ht. unfold process_ds. rewrite Hfx, Ht. simpl.
+  destruct (Nat.ltb (length signs) 2); reflexivity.
+Qed.
+
+End BuilderValidator.
 
 (* the zero-penalty class: the builder expels, the slash data stays empty, the replay does nothing *)
 Definition w_cfg0 : config := mkCfg 0 100 120 8 65536 1000000000000000000 10000.
@@ -289,8 +343,8 @@ Definition w_equivocation : evidence := EvDS 10 1 0 2 [(5%N, 77%N); (6%N, 88%N)]
 
 Theorem builder_validator_refuted_without_repair d :
   exists res pend sd res2,
-    slashing (mkFix d false) w_vf w_cfg0 w_chain 10 11 [w_equivocation] w_state = Some (res, pend, sd) /\
-    replay_slashing (mkFix d false) w_vf w_cfg0 w_chain 10 11 sd w_state = Some (res2, false) /\
+    slashing (mkFix d false) w_vf w_cfg0 w_chain 11 [w_equivocation] w_state = Some (res, pend, sd) /\
+    replay_slashing (mkFix d false) w_vf w_cfg0 w_chain 11 sd w_state = Some (res2, false) /\
     find_val (s_vals (r_state res)) 9%N <> find_val (s_vals (r_state res2)) 9%N.
 Proof.
   destruct d; do 4 eexists; (split; [vm_compute; reflexivity|split; [vm_compute; reflexivity|vm_compute; discriminate]]).
